@@ -21,7 +21,7 @@ func init() {
 		Level: "model_checking",
 		Rule: "bounded-exhaustive: URL strings = every sequence of <=3 (thorough 4) fragments over a 46-fragment URL alphabet (schemes in several casings, ':' and its character references, tab/LF/CR and their references, C0 controls, NUL, DEL, backslash, percent-escapes, userinfo, query, fragment, IDN, Unicode spaces) " +
 			"and every byte string <=4 (thorough 5) over a 13-byte alphabet, placed in each of the 17 element/attribute positions the property lists (alone, and as the second or first of a duplicated attribute next to a valid / rejected / empty value), plus data: URIs (every sequence <=4 over a 24-fragment data-URI alphabet under AllowDataURIImages policies), crossed with scheme allowlists {http,https,mailto} x relative on/off x custom check on http x scheme regexp x rewriter on/off, plus the boundary shapes of the scheme tables (URL checking on with no scheme allowed, only a scheme pattern, an unanchored pattern, a pattern that also matches the empty string with relative URLs not allowed, only a custom-checked scheme). " +
-			"Oracle on every surviving value (as re-tokenised): no byte <=0x20 or 0x7f, WHATWG-style scheme (independent of net/url) on the allowlist and approved by the custom check applied to the URL in the form a browser gives it (for http, https, ftp, ws, wss any run of slashes and backslashes after the colon, none included, starts the authority), or relative only if allowed; with a rewriter every surviving src is the rewriter's result. " +
+			"Oracle on every surviving value (as re-tokenised): no byte <=0x20 or 0x7f, WHATWG-style scheme (independent of net/url) on the allowlist and approved by the custom check, or relative only if allowed; a surviving http / https / ftp / ws / wss URL must have // and a host (without them a browser reads it as absolute or as relative depending on the page); with a rewriter every surviving src is the rewriter's result. " +
 			"non-trivial = the URL attribute was removed or rewritten.",
 		Assumptions: []string{
 			"scheme classification is the harness's WHATWG-style extractor (strip C0/space at the ends, delete tab/LF/CR, ^[A-Za-z][A-Za-z0-9+.-]*:), not net/url",
@@ -122,6 +122,17 @@ func judgeURLValue(v *spec.View, el, key, val string) (sig, what string) {
 			return "relative", fmt.Sprintf("relative reference %s.%s=%s kept although relative URLs are not allowed", el, key, run.Q(val))
 		}
 		return "", ""
+	}
+	// For the special schemes a value without "//" + host has no single reading: a browser takes "https:e.x/p" as
+	// the host e.x on a page of another scheme and as a reference relative to the page on an https page (WHATWG URL,
+	// "special relative or authority state"), so neither the allowlist, nor a custom check, nor the relative switch
+	// has judged what the browser will use.
+	switch sch {
+	case "http", "https", "ftp", "ws", "wss":
+		rest := strings.ReplaceAll(val[strings.IndexByte(val, ':')+1:], `\`, "/")
+		if !strings.HasPrefix(rest, "//") || len(rest) < 3 || rest[2] == '/' || rest[2] == '?' || rest[2] == '#' {
+			return "special-no-authority|" + el + "." + key, fmt.Sprintf("%s.%s=%s survives: a %s URL without \"//\" and a host is absolute or relative for a browser depending on the page it is on", el, key, run.Q(val), sch)
+		}
 	}
 	checks, listed := v.Schemes[sch]
 	if !listed {
